@@ -10,8 +10,12 @@
 extern "C" size_t cjet_get_alloc_size(void) __attribute__((weak));
 extern "C" int get_number_of_peers(void) __attribute__((weak));
 
-void World::violation(const std::string &prop, const std::string &rule, const std::string &detail) {
+void World::violation(const std::string &prop_in, const std::string &rule_in, const std::string &detail) {
 	if (res.violated || done) return;
+	std::string prop = prop_in, rule = rule_in;
+	// containment profile: what the reference model expects for healthy peers *is* the property; keep the originating rule visible
+	std::string rl = plan.hdr.gets("relabel");
+	if (!rl.empty() && (prop == "C01" || prop == "C02" || prop == "C03" || prop == "C04" || prop == "C05" || prop == "C14")) { rule = prop + ":" + rule; prop = rl; }
 	res.violated = true; res.v.prop = prop; res.v.rule = rule; res.v.detail = detail;
 	finish(0);
 	bail();
@@ -29,6 +33,7 @@ void World::expect(int c, const Exp &e) {
 	Client &cl = clients[c];
 	if (cl.no_expect || cl.faulty || cl.daemon_closed) return;
 	if (cl.closing && e.kind != Exp::CLOSE) return;
+	dbg("expect c%d: %s", c, e.describe().c_str());
 	cl.expq.push_back(e);
 }
 
@@ -46,6 +51,7 @@ void World::feed_input(const Input &in) {
 	case Input::MSG:
 		res.st.msgs_consumed++;
 		if (cl) cl->msgs_in++;
+		last_fed_client = in.c;
 		if (mode == "exact") { if (cl && !cl->no_expect && !model.on_message(in.c, in.text)) cl->closing = true; }
 		else if (mode == "ledger" && cl) ledger_request(*cl, in.text);
 		break;
@@ -146,6 +152,13 @@ void World::turn_end() {
 	feed_batch_errors_before(-1);
 	flush_pending();
 	batch.clear();
+	if (presumed_drop >= 0) {
+		Client &x = clients[presumed_drop];
+		if (!x.daemon_closed) violation("C11", "frames-as-if-peer-dropped", "healthy peers received frames that only the end of faulty peer c" + std::to_string(x.idx) + " explains, but the daemon did not release that connection");
+		presumed_drop = -1;
+	}
+	last_fed_client = -1;
+	for (auto &cl : clients) if (cl.msg_done_turn) { cl.msg_done_turn = false; if (cl.accepted && !cl.daemon_closed && (cl.rx_off < cl.rx.size() || cl.eof || cl.hup || cl.rx_err)) { KFd *kk = g_kernel.get(cl.fd); if (kk) g_kernel.mark_pending(*kk); } }
 	c10_turn_end();
 	for (auto &cl : clients) cl.write_attempts_turn = 0;
 	if (mode == "exact") {
@@ -215,6 +228,7 @@ static bool content_match(const Exp &e, const Frame &f, int cls, std::string &ne
 		case Exp::R_EITHER: ok = (r != nullptr) != (er != nullptr); break;
 		case Exp::R_ANYRESULT: ok = r && !er; break;
 		case Exp::R_GETSET: ok = r && !er && get_set_equal(*r, e.payload); break;
+		case Exp::R_OK_OR_ERR: ok = (r && !er && r->t == JV::Bool && r->b) || (er && !r && er->t == JV::Obj); break;
 		case Exp::R_ERR_OR_GETSET: ok = (er && !r && er->t == JV::Obj) || (r && !er && get_set_equal(*r, e.payload)); break;
 		}
 		if (!ok) near = "response for id " + id->dump() + " has the wrong outcome/payload: expected " + e.describe();
@@ -265,6 +279,7 @@ bool World::try_match(Client &cl, const Frame &f, std::string &why) {
 		for (size_t k = 0; k < lim; k++) if (k != i && cl.expq[k].group == e.group && !cl.expq[k].optional && cl.expq[k].rank < e.rank) blocked = true;
 		if (blocked) { why = "frame arrives before frames that must precede it: " + e.describe(); continue; }
 		Exp copy = e;
+		dbg("matched c%d: %s", cl.idx, e.describe().c_str());
 		cl.expq.erase(cl.expq.begin() + i);
 		after_match(cl, copy, f);
 		return true;
@@ -398,6 +413,13 @@ void World::on_frame(Client &cl, const Frame &f) {
 		return;
 	}
 	client_reaction(cl, f);
+	if (mode == "exact" && cl.faulty && !cl.no_expect && classify(f) == 2) {
+		// a routed request that did reach a faulty owner: its id is learnt so that the owner's reply, if it ever sends one, is attributed
+		flush_pending();
+		model.on_routed_observed(cl.idx, f.j.gets("method"), f.j.get("params"), f.j.gets("id"));
+		// expectations that were conditional on a decision taken meanwhile (the request was accepted for routing) are void
+		for (auto &c2 : clients) for (size_t i = 0; i < c2.expq.size();) { Exp &x = c2.expq[i]; if (x.optional && x.decision >= 0 && x.decision < (int)model.decisions.size() && model.decisions[x.decision].state != 0) c2.expq.erase(c2.expq.begin() + (long)i); else i++; }
+	}
 	if (cl.closing || cl.no_expect || cl.faulty) return;
 	if (mode == "ledger") { ledger_frame(cl, f); return; }
 	if (mode != "exact") return;
@@ -408,6 +430,31 @@ void World::on_frame(Client &cl, const Frame &f) {
 		if (cl.closing) return;
 	}
 	int cls = classify(f);
+	// A faulty peer is dropped by the daemon when the answer to its own request cannot be written. The consequences for others
+	// (remove events, shutdown errors) are written before its descriptor is closed, so the drop is inferred here and must be
+	// confirmed by the close before the daemon returns to its event loop.
+	int cand = -1;
+	if (presumed_drop < 0) {
+		auto plausible = [&](int ci) {
+			if (ci < 0 || ci >= (int)clients.size() || ci == cl.idx) return false;
+			Client &x = clients[ci]; auto it = model.peers.find(ci);
+			bool impaired = x.space == 0 || x.wr_err || x.blocked || (x.client_closed && x.wr_fail_after_close);
+			return x.faulty && impaired && !x.no_expect && !x.closing && !x.daemon_closed && x.accepted && it != model.peers.end() && it->second.alive;
+		};
+		if (plausible(last_fed_client)) cand = last_fed_client;                      // the peer whose request is being processed
+		else for (auto &b : batch) { KFd *k = g_kernel.get(b.fd); if (k && k->kind == FD_STREAM && plausible(k->client)) { cand = k->client; break; } }   // or one whose readiness event is being handled
+	}
+	if (cand >= 0) {
+		Client &x = clients[cand];
+		{
+			presumed_drop = x.idx; x.closing = true; probe("faulty_peer_drop_inferred");
+			resolve_silent_decisions();
+			model.on_peer_gone(x.idx, false);
+			std::string why2;
+			if (try_match(cl, f, why2)) { update_replica(cl, f); return; }
+			presumed_detail = "(the frame is not explained by the daemon dropping faulty peer c" + std::to_string(x.idx) + " either) ";
+		}
+	}
 	std::string prop = cls == 1 ? model.notify_prop : cls == 2 ? "C03" : "C02";
 	std::string rule = cls == 1 ? "unexpected-notification" : cls == 2 ? "unexpected-routed-request" : cls == 0 ? "unexpected-response" : "malformed-frame";
 	std::string detail = "connection c" + std::to_string(cl.idx) + " (" + cl.transport + ") received " + frame_text(f) + " which nothing it is entitled to explains";
